@@ -274,6 +274,12 @@ def emit(seed, tier, with_numpy=False):
         for c in (6.0, 7.0, 12.0, 33.0, 1024.0, 2000.0, -2000.0, -5.0):
             for name in ("pow_f", "powf"):
                 jobs.append({"kind": "scalar", "class": cname, "inputs": [[fbits(v) for v in parts]], "ops": bitsify([{"op": name, "a": 0, "c": c}])})
+    # integer exponents whose coefficient product n(n-1)(n-2) leaves the i32 range: the Rust powi panics in a
+    # build with overflow checks (a defect of num-dual against C09, not claimed here); the bindings must do whatever
+    # the Rust operation does - here: fail - rather than return something else
+    for cname, parts in (("Dual3_64", [1.0009765625, 0.5, 0.25, 1.0]), ("HyperHyperDual64", [1.0009765625, 0.5, 1.0, 2.0, 0.0, 0.25, 0.0, 1.0])):
+        for name in ("pow_i", "powi"):
+            jobs.append({"kind": "scalar", "class": cname, "inputs": [[fbits(v) for v in parts]], "ops": [{"op": name, "a": 0, "n": 2000}]})
     reps = 3 if tier == "quick" else 80
     for _ in range(reps):
         for drv, nin in (("first_derivative", 1), ("second_derivative", 1), ("third_derivative", 1), ("second_partial_derivative", 2), ("third_partial_derivative", 3)):
@@ -448,17 +454,72 @@ def flat_hex(v):
     return out
 
 
+def build_scalar_inputs(nd, job):
+    cls = getattr(nd, job["class"])
+    regs = []
+    for parts in job["inputs"]:
+        p = [unbits(h) for h in parts]
+        if job["class"] in ("Dual2Dual64", "Dual3Dual64", "HyperDualDual64"):
+            regs.append(cls(*[nd.Dual64(p[i], p[i + 1]) for i in range(0, len(p), 2)]))
+        else:
+            regs.append(cls(*p))
+    return regs
+
+
+def call_python_driver(nd, job, seen):
+    drv = job["driver"]
+    x = [unbits(h) for h in job["x"]]
+
+    def body(*args):
+        regs = []
+        for a in args:
+            regs += list(a) if isinstance(a, (list, tuple)) else [a]
+        for op in job["ops"]:
+            regs.append(py_step(op, regs))
+        seen["reprs"] = [repr(r) for r in regs]
+        seen["getters"] = [getter_view(r) for r in regs]
+        if drv == "jacobian":
+            return [regs[i] for i in job["rets"]]
+        return regs[-1]
+
+    seen["body"] = body
+    if drv in ("first_derivative", "second_derivative", "third_derivative"):
+        return getattr(nd, drv)(body, x[0])
+    if drv == "second_partial_derivative":
+        return nd.second_partial_derivative(body, x[0], x[1])
+    if drv == "third_partial_derivative":
+        return nd.third_partial_derivative(body, x[0], x[1], x[2])
+    if drv == "third_partial_derivative_vec":
+        return nd.third_partial_derivative_vec(body, x, *job["ijk"])
+    if drv == "partial_hessian":
+        return nd.partial_hessian(body, x, [unbits(h) for h in job["y"]])
+    return getattr(nd, drv)(body, x)
+
+
+def python_raises(nd, job):
+    try:
+        if job["kind"] == "scalar":
+            regs = build_scalar_inputs(nd, job)
+            for op in job["ops"]:
+                regs.append(py_step(op, regs))
+        else:
+            call_python_driver(nd, job, {})
+    except BaseException as e:  # noqa: BLE001
+        if isinstance(e, (SystemExit, MemoryError, KeyboardInterrupt)):
+            raise
+        return True
+    return False
+
+
 def run_job(nd, job, ref):
     """returns None or a mismatch description"""
+    if "panicked" in ref:
+        # the Rust operation itself panics on this program (an overflow check, say): the Python side must fail too
+        if python_raises(nd, job):
+            return None
+        return {"at": -1, "what": "the Rust operation panics on this program but the Python side returned a value", "rust_panic": ref["panicked"][:200]}
     if job["kind"] == "scalar":
-        cls = getattr(nd, job["class"])
-        regs = []
-        for parts in job["inputs"]:
-            p = [unbits(h) for h in parts]
-            if job["class"] in ("Dual2Dual64", "Dual3Dual64", "HyperDualDual64"):
-                regs.append(cls(*[nd.Dual64(p[i], p[i + 1]) for i in range(0, len(p), 2)]))
-            else:
-                regs.append(cls(*p))
+        regs = build_scalar_inputs(nd, job)
         n_in = len(regs)
         if "array_plan" in job:
             m = run_array_plan(job, regs, ref)
@@ -485,34 +546,12 @@ def run_job(nd, job, ref):
     x = [unbits(h) for h in job["x"]]
     seen = {}
 
-    def body(*args):
-        regs = []
-        for a in args:
-            regs += list(a) if isinstance(a, (list, tuple)) else [a]
-        for op in job["ops"]:
-            regs.append(py_step(op, regs))
-        seen["reprs"] = [repr(r) for r in regs]
-        seen["getters"] = [getter_view(r) for r in regs]
-        if drv == "jacobian":
-            return [regs[i] for i in job["rets"]]
-        return regs[-1]
-
     def call_driver():
-        if drv in ("first_derivative", "second_derivative", "third_derivative"):
-            return getattr(nd, drv)(body, x[0])
-        if drv == "second_partial_derivative":
-            return nd.second_partial_derivative(body, x[0], x[1])
-        if drv == "third_partial_derivative":
-            return nd.third_partial_derivative(body, x[0], x[1], x[2])
-        if drv == "third_partial_derivative_vec":
-            return nd.third_partial_derivative_vec(body, x, *job["ijk"])
-        if drv == "partial_hessian":
-            return nd.partial_hessian(body, x, [unbits(h) for h in job["y"]])
-        return getattr(nd, drv)(body, x)
+        return call_python_driver(nd, job, seen)
 
     if drv == "jacobian" and len(x) > 10:
         try:
-            nd.jacobian(body, x)
+            nd.jacobian(lambda v: [v[0]], x)
         except TypeError:
             return None  # documented limit of the bindings; nothing to compare
         return {"at": -1, "what": "jacobian accepted more than 10 variables"}
